@@ -165,11 +165,14 @@ Proof. exact placement_history. Qed.
 Print Assumptions C09_placement_histories.
 
 (* histories with EVERY kind of statement (new / copied / appended / removed / reordered cells, flips, edits of
-   VOL U LAT FILL anywhere, importance.<particle> = / del / importance.all): if importances are only edited on
-   cells whose trees are plain (every cell made by Cell(), every cell whose importances came from one-particle data
-   cards: [safe_op], decided along the history by [all_safe]), the structural part of [clean] is an invariant
-   (induction over the operation list), so the final state is written exactly once unless MontePy refuses it
-   (ParticleTypeNotInCell / Fill with a transform in the data block) *)
+   VOL U LAT FILL, importance.<particle> = v with its _unshare_tree, importance.all): the structural part of
+   [clean] ([sstruct]: partition condition, shared trees name exactly their particles, MODE trees name MODE
+   particles) is an invariant — induction over the operation list; the case of _unshare_tree is the section
+   Unshare of Proofs/PlaceProofs.v — so the final state is written exactly once unless MontePy refuses it
+   (ParticleTypeNotInCell / Fill with a transform in the data block).  The one restriction ([safe_op], decided
+   along the history by [all_safe]): `del cell.importance.<particle>` only on cells whose trees are plain.
+   [sstruct] of the state right after reading is reported by the model for every generated input ("S" in the
+   model's diagnosis; never seen) — that [read] establishes it is not proved. *)
 Theorem C09_safe_histories : forall s ops, wf s -> sstruct s = true -> all_safe s ops = true ->
   imp_data_ok (run_ops s ops) = true -> fill_ok (run_ops s ops) = true -> exactly_once (run_ops s ops).
 Proof. exact safe_history. Qed.
@@ -253,15 +256,23 @@ Example C09_ex_new_cell :
   clean (run_ops s_ex [ONew 9; OAppend; OSetImp (TCell 9) p 2; OSetImp (TCell 9) n 3; OSetVol (TCell 9) 4; ODelVol (TCell 1)]) = true.
 Proof. split; vm_compute; reflexivity. Qed.
 
-(* a history the safe-history theorem covers: a new cell gets its importances after it was appended, a volume is
-   set and another deleted on cells that were read, cells are reordered, placements flipped *)
+(* a history the safe-history theorem covers: importances are set on a new cell after it was appended AND on cells
+   that were read with a combined imp:n,p card; a volume is set and another deleted; cells are reordered,
+   placements flipped *)
 Definition ops_safe : list op :=
-  [ONew 9; OAppend; OSetImp (TCell 9) p 2; OSetImp (TCell 9) n 3; OSetAll (TCell 9) 4; OSetVol (TCell 2) 6;
-   ODelVol (TCell 1); OSetU (TCell 9) 7; OReorder [9; 5; 2; 1]; OFlip CImp false; OFlip CVol false; OFlip CU true].
+  [ONew 9; OAppend; OSetImp (TCell 9) p 2; OSetImp (TCell 9) n 3; OSetAll (TCell 9) 4; OSetImp (TCell 1) n 5;
+   OSetAll (TCell 2) 6; OSetVol (TCell 2) 6; ODelVol (TCell 1); OSetU (TCell 9) 7; OReorder [9; 5; 2; 1];
+   OFlip CImp false; OFlip CVol false; OFlip CU true].
 Example C09_ex_safe_history :
   sstruct s_ex = true /\ all_safe s_ex ops_safe = true /\
   imp_data_ok (run_ops s_ex ops_safe) = true /\ fill_ok (run_ops s_ex ops_safe) = true /\
   map c_num (s_cells (run_ops s_ex ops_safe)) = [9; 5; 2; 1].
+Proof. repeat split; vm_compute; reflexivity. Qed.
+
+(* the same with a tree that two particles share on a cell card (imp:n,p=1): neutron is split off *)
+Example C09_ex_safe_history_unshare :
+  sstruct (st f_np []) = true /\ all_safe (st f_np []) [OSetImp (TCell 1) n 2; OFlip CImp false] = true /\
+  write (run_ops (st f_np []) [OSetImp (TCell 1) n 2; OFlip CImp false]) = Ok (mkW [(1, [EImp [n] 2; EImp [p] 1])] [DOther]).
 Proof. repeat split; vm_compute; reflexivity. Qed.
 
 (* the two documented refusals (no file is produced; side conditions imp_data_ok / fill_ok) *)
